@@ -47,7 +47,7 @@ RELEVANT = {
     "C16": ["blend"],
     "C17": ["thin"],
     "C20": ["plot_right_edge", "plot_data_completeness", "plot_heatmap", "plot_atas", "plot_growth_curve",
-            "plot_mountain", "plot_ballistic", "plot_broom", "plot_sunset", "plot_histogram"],
+            "plot_mountain", "plot_ballistic", "plot_broom", "plot_sunset", "plot_histogram", "plot_drip", "plot_hose"],
 }
 
 
